@@ -171,6 +171,63 @@ theorem history_invariants_consistent (cfg : Config) (hnew : cfg.matches .new = 
     rw [runHistory_cons]
     exact ⟨P2, F2, hI2, hJ2⟩
 
+/-- the head block the forkable remembers is a block of the universe, with its number -/
+def HeadU (U : Id → Option Blk) (s : FState) : Prop :=
+  ∀ l, s.lastSent = some l → ∃ b, U l.id = some b ∧ b.num = l.num
+
+theorem headU_step (cfg : Config) (hnew : cfg.matches .new = true) (hundo : cfg.matches .undo = true)
+    (hirr : cfg.matches .irreversible = true) (U : Id → Option Blk) (hU : UOK U) (F : List Id)
+    (s : FState) (P : List Id) (b : Blk) (hI : Inv s P) (hJ : Inv2 U F s.db) (hbU : U b.id = some b)
+    (hL : LibDeclOK s.db b) (hni : s.includeInit = false ∨ s.lastSent.isSome = true ∨ b.id ≠ s.db.libRef.id)
+    (hH : HeadU U s) : HeadU U (processBlock cfg s b none).1 := by
+  obtain ⟨_, _, _, h3, _, _⟩ := processBlock_step cfg hnew hundo hirr s P b hI hni
+    (sentClosed_of_inv2 U F s.db hI.wf hI.heights hJ) (hU.wf b.id b hbU) (hb_of_inv2 U hU F s.db hJ b hbU) hL
+  intro l hl
+  rcases h3 with ⟨_, hsame⟩ | ⟨_, _, l', hl', href⟩
+  · rw [hsame] at hl; exact hH l hl
+  · rw [hl'] at hl
+    have : l' = l := Option.some.inj hl
+    subst this
+    have hid : l'.id = b.id := by have := congrArg Ref.id href; simpa [Blk.ref] using this
+    have hn : l'.num = b.num := by have := congrArg Ref.num href; simpa [Blk.ref] using this
+    exact ⟨b, by rw [hid]; exact hbU, hn.symm⟩
+
+/-- the head block carries the number under which it is stored (the side condition `hnum` of the state-level theorems
+    of C05 and C07): it follows from the invariants along any history -/
+theorem head_num_of_invariants (U : Id → Option Blk) (hU : UOK U) (F : List Id) (s : FState) (hJ : Inv2 U F s.db)
+    (hH : HeadU U s) (l : Blk) (hl : s.lastSent = some l) (e : Entry) (he : s.db.find l.id = some e) :
+    e.blk.num = l.num := by
+  obtain ⟨b, hb, hn⟩ := hH l hl
+  have hin := hJ.inU e (find_mem s.db _ e he)
+  rw [find_id s.db _ e he, hb] at hin
+  have : b = e.blk := Option.some.inj hin
+  rw [← this]; exact hn
+
+/-- the three invariants along a whole history -/
+theorem history_all_invariants_consistent (cfg : Config) (hnew : cfg.matches .new = true) (hundo : cfg.matches .undo = true)
+    (hirr : cfg.matches .irreversible = true) (U : Id → Option Blk) (hU : UOK U) (h : List Blk) (F : List Id)
+    (s : FState) (P : List Id) (hI : Inv s P) (hJ : Inv2 U F s.db) (hH : HeadU U s) (hin : ∀ b ∈ h, U b.id = some b)
+    (hL : LibHistOK cfg s h) (hincl : s.includeInit = false ∨ s.lastSent.isSome = true) :
+    ∃ P' F', Inv (runHistory cfg s h).1 P' ∧ Inv2 U F' (runHistory cfg s h).1.db ∧ HeadU U (runHistory cfg s h).1 := by
+  induction h generalizing s P F with
+  | nil => exact ⟨P, F, hI, hJ, hH⟩
+  | cons b r ih =>
+    have hni : s.includeInit = false ∨ s.lastSent.isSome = true ∨ b.id ≠ s.db.libRef.id := by
+      rcases hincl with h | h
+      · exact Or.inl h
+      · exact Or.inr (Or.inl h)
+    obtain ⟨P1, F1, _, hI1, hJ1, htip⟩ :=
+      step_discipline_consistent cfg hnew hundo hirr U hU F s P b hI hJ (hin b (by simp)) hL.1 hni
+    have hH1 := headU_step cfg hnew hundo hirr U hU F s P b hI hJ (hin b (by simp)) hL.1 hni hH
+    obtain ⟨P2, F2, hI2, hJ2, hH2⟩ := ih F1 _ P1 hI1 hJ1 hH1 (fun x hx => hin x (by simp [hx])) hL.2
+      (by rcases hincl with h | h
+          · exact Or.inl (by rw [processBlock_includeInit]; exact h)
+          · rcases htip with ⟨_, hsame⟩ | hsome
+            · exact Or.inr (by rw [hsame]; exact h)
+            · exact Or.inr hsome)
+    rw [runHistory_cons]
+    exact ⟨P2, F2, hI2, hJ2, hH2⟩
+
 /-- **C01 as it is stated — the consumer that only pushes on New and pops on Undo.** A forkable with a known LIB, fed
     any history of blocks of one consistent block tree (any order, duplicates, gaps, forks, orphans): a consumer that
     starts on the LIB holding nothing, pushes every block delivered New, pops on every Undo — checking nothing but
